@@ -8,7 +8,8 @@
 //   api = cli  the Xalan command-line program built from the same working tree (fork/exec)
 // usage: xv_c05 cases.ndjson /path/to/Xalan > trace.ndjson
 //   case: {"id":N,"dir":"/abs","xml":"in.xml","xsl":"main.xsl","sparam":["ps","v"],"nparam":["pn","2.5"],
-//          "cfgs":[{"src":..,"ss":..,"out":..,"api":..,"via":"file"|"stream","short":k,"xml":"other.xml","ctrl":"tag"}]}
+//          "cfgs":[{"src":..,"ss":..,"out":..,"api":..,"via":"file"|"stream","short":k,"xml":"other.xml","xsl":"other.xsl","ctrl":"tag"}]}
+//          (xml / xsl / ctrl: control experiments - the form run on a variant of the document / stylesheet)
 // events: {"e":"Reset","id":N}
 //         {"e":"Run","id":N,"k":i,"cfg":{src,ss,out,api},"via":..,"short":k,"ctrl":..,"status":s,"msg":"..",
 //          "bytes":"hex" | "tree":[...], "wlog":[n,...,-1]}         (wlog: handler calls; -1 = flush handler)
@@ -62,7 +63,7 @@ static std::string hex(const std::string& b) {
 }
 static std::string xs(const XMLCh* s) { return s ? toUtf8(s, xc::XMLString::stringLen(s)) : std::string(); }
 
-struct Cfg { std::string src, ss, out, api, via, xml, ctrl; long long shortAt = 0; };
+struct Cfg { std::string src, ss, out, api, via, xml, xsl, ctrl; long long shortAt = 0; };
 struct Case { long long id; std::string dir, xml, xsl, sname, sval, nname, nval; };
 struct Outcome {
     int status = 0; std::string msg; bool isTree = false; std::string bytes, tree; std::vector<long long> wlog; bool hasLog = false;
@@ -207,7 +208,7 @@ static void setParamsCpp(XalanTransformer& xt, const Case& c) {
 
 static Outcome runCpp(const Case& c, const Cfg& g, const std::string& outPath) {
     Outcome r;
-    const std::string xmlPath = c.dir + "/" + (g.xml.empty() ? c.xml : g.xml), xslPath = c.dir + "/" + c.xsl;
+    const std::string xmlPath = c.dir + "/" + (g.xml.empty() ? c.xml : g.xml), xslPath = c.dir + "/" + (g.xsl.empty() ? c.xsl : g.xsl);
     XalanTransformer xt;
     std::ostringstream warn; xt.setWarningStream(&warn);
     setParamsCpp(xt, c);
@@ -321,7 +322,7 @@ static Outcome runCpp(const Case& c, const Cfg& g, const std::string& outPath) {
 // --------------------------------------------------------------------------------------------- C API
 static Outcome runC(const Case& c, const Cfg& g, const std::string& outPath) {
     Outcome r;
-    const std::string xmlPath = c.dir + "/" + (g.xml.empty() ? c.xml : g.xml), xslPath = c.dir + "/" + c.xsl;
+    const std::string xmlPath = c.dir + "/" + (g.xml.empty() ? c.xml : g.xml), xslPath = c.dir + "/" + (g.xsl.empty() ? c.xsl : g.xsl);
     XalanHandle h = CreateXalanTransformer();
     static_cast<XalanTransformer*>(h)->setWarningStream(nullptr);
     if (!c.sname.empty()) XalanSetStylesheetParam(c.sname.c_str(), ("'" + c.sval + "'").c_str(), h);
@@ -371,7 +372,7 @@ static Outcome runC(const Case& c, const Cfg& g, const std::string& outPath) {
 // ----------------------------------------------------------------------------------------------- CLI
 static Outcome runCli(const Case& c, const Cfg& g, const std::string& outPath, const std::string& exe) {
     Outcome r;
-    const std::string xmlPath = c.dir + "/" + (g.xml.empty() ? c.xml : g.xml), xslPath = c.dir + "/" + c.xsl;
+    const std::string xmlPath = c.dir + "/" + (g.xml.empty() ? c.xml : g.xml), xslPath = c.dir + "/" + (g.xsl.empty() ? c.xsl : g.xsl);
     std::vector<std::string> a = { exe };
     if (!c.sname.empty()) { a.push_back("-p"); a.push_back(c.sname); a.push_back("'" + c.sval + "'"); }
     if (!c.nname.empty()) { a.push_back("-p"); a.push_back(c.nname); a.push_back(c.nval); }
@@ -418,7 +419,7 @@ int main(int argc, char** argv) {
             for (size_t k = 0; k < cfgs.a.size(); ++k) {
                 const J& q = cfgs.a[k];
                 Cfg g; g.src = q.str("src"); g.ss = q.str("ss"); g.out = q.str("out"); g.api = q.str("api"); g.via = q.str("via", "file");
-                g.xml = q.str("xml"); g.ctrl = q.str("ctrl"); g.shortAt = q.num("short");
+                g.xml = q.str("xml"); g.xsl = q.str("xsl"); g.ctrl = q.str("ctrl"); g.shortAt = q.num("short");
                 const std::string outPath = c.dir + "/out-" + std::to_string(k);
                 unlink(outPath.c_str());
                 Outcome r;
